@@ -12,14 +12,35 @@
 From Isobar Require Import Base.Prelude Sched.Model Sched.SrcGlue Generated.TablesTrack Sched.ModelSrc.
 Local Open Scope Z_scope.
 
+(* the voice loop of the note branch: the per-voice body is the source's (amp and gate tests, note_on, the NoteOffEvent with
+   both clocks, append), the loop over the resolved voices is SrcGlue.v perform_note_with; together they are perform_voices *)
+Lemma voice_loop_stopped fail nowT : forall vs tr calls n, fold_left (src_track_perform_voice fail nowT) vs (tr, calls, n, false) = (tr, calls, n, false).
+Proof. induction vs as [|v vs IH]; intros tr calls n; cbn [fold_left]; [reflexivity|apply IH]. Qed.
+
+Lemma set_offs_same tr : set_offs tr (t_offs tr) = tr.
+Proof. destruct tr; reflexivity. Qed.
+
+Lemma voice_loop_is fail nowT : forall vs tr calls n,
+  fold_left (src_track_perform_voice fail nowT) vs (tr, calls, n, true)
+  = let '(offs, c, n', ok) := perform_voices fail nowT (t_cur tr) vs n (t_offs tr) calls in (set_offs tr offs, c, n', ok).
+Proof.
+  induction vs as [|v vs IH]; intros tr calls n; cbn [fold_left perform_voices]; [rewrite set_offs_same; reflexivity|].
+  unfold src_track_perform_voice at 2. unfold voice_on. cbn iota beta.
+  destruct (v_amp v) as [a|]; [|apply IH]. rewrite Z.gtb_ltb. destruct (0 <? a); cbn [andb]; [|destruct (v_glen v); apply IH].
+  destruct (v_glen v) as [l|]; [|apply IH]. rewrite Z.gtb_ltb. destruct (0 <? l); [|apply IH].
+  destruct (dev_emit fail n).
+  - rewrite IH. reflexivity.
+  - rewrite voice_loop_stopped, set_offs_same. reflexivity.
+Qed.
+
 (* Track.perform_event: the guards `if not event.active: return`, `if self.is_muted: return`, the dispatch on event.type and
    the control / program-change branches are the source's; the action and note branches are SrcGlue.v's (= the model's) *)
 Theorem src_track_perform_event_is fail nowT tr e n : src_track_perform_event fail nowT tr e n = perform_event fail nowT tr e n.
 Proof.
-  unfold src_track_perform_event, perform_event, perform_note, perform_action.
+  unfold src_track_perform_event, perform_event, perform_note_with, perform_action.
   destruct (e_active e); cbn [negb]; [|reflexivity]. destruct (t_muted tr); [reflexivity|].
   destruct (e_kind e) as [vs|cb|c v ch|p ch].
-  - destruct (perform_voices fail nowT (t_cur tr) vs n (t_offs tr) []) as [[[offs calls] n'] ok]. reflexivity.
+  - rewrite voice_loop_is. destruct (perform_voices fail nowT (t_cur tr) vs n (t_offs tr) []) as [[[offs calls] n'] ok]. reflexivity.
   - reflexivity.
   - destruct (dev_emit fail n); reflexivity.
   - destruct (dev_emit fail n); reflexivity.
